@@ -28,6 +28,31 @@ pub fn world_seed(seed: u64, prop: &str, n: u64) -> u64 {
     mix(mix_str(seed, prop), n)
 }
 
+/// the library prints `dbg!` output to stderr; keep the supervisor's own stderr clean while it
+/// replays worlds in-process (shrinking, replay)
+fn quiet<T>(f: impl FnOnce() -> T) -> T {
+    unsafe {
+        let saved = libc::dup(2);
+        let devnull = libc::open(b"/dev/null\0".as_ptr() as *const libc::c_char, libc::O_WRONLY);
+        if saved >= 0 && devnull >= 0 {
+            libc::dup2(devnull, 2);
+        }
+        let r = f();
+        if saved >= 0 {
+            libc::dup2(saved, 2);
+            libc::close(saved);
+        }
+        if devnull >= 0 {
+            libc::close(devnull);
+        }
+        r
+    }
+}
+
+pub fn run_one_quiet(prop: &str, tier: Tier, n: u64, tape: Tape) -> WorldReport {
+    quiet(|| run_one(prop, tier, n, tape))
+}
+
 pub fn run_one(prop: &str, tier: Tier, n: u64, tape: Tape) -> WorldReport {
     let mut rep = crate::props::run_world(prop, tier, n, tape);
     rep.violations.retain(|v| v.property == prop);
@@ -98,9 +123,14 @@ pub fn worker(prop: &str, tier: Tier, seed: u64, from: u64, to: u64, per_world: 
             digests.insert(rep.digest);
         }
         sigs.insert(rep.sig);
-        if samples.len() < 2 && rep.nontrivial && (n - from) % 7 == 3 {
+        // written-out cases for the evidence file: spread over the range, preferring worlds that got as far as
+        // emitting a transaction (their payload and hash can be cross-checked outside this program)
+        if samples.len() < 3 && rep.nontrivial {
             if let Some(s) = &rep.sample {
-                samples.push(json!({"world": n, "case": s}));
+                let has_tx = s.to_string().contains("\"payload\"");
+                if (has_tx && samples.len() < 2 && (n - from) % 5 == 2) || (n - from) % 97 == 13 {
+                    samples.push(json!({"world": n, "case": s}));
+                }
             }
         }
         if per_world {
@@ -381,7 +411,7 @@ fn merge(a: &mut Batch, b: Batch) {
 // ------------------------------------------------------------------ shrinking
 
 fn fails_same(prop: &str, tier: Tier, n: u64, data: &[u64], class: &str, shape: &str) -> Option<WorldReport> {
-    let rep = run_one(prop, tier, n, Tape::replay(data.to_vec()));
+    let rep = run_one_quiet(prop, tier, n, Tape::replay(data.to_vec()));
     if rep.violations.iter().any(|v| v.class == class && v.shape == shape) {
         Some(rep)
     } else {
@@ -532,7 +562,23 @@ pub fn replay(path: &str) -> i32 {
         .as_array()
         .map(|a| a.iter().filter_map(|x| x.as_u64()).collect())
         .unwrap_or_default();
-    let rep = run_one(&prop, Tier::Quick, n, Tape::replay(tape));
+    if class == "P2-signal" {
+        // the world kills its process (abort / stack overflow / hang): replay it in a child from its search seed
+        let seed = doc["verif_seed"].as_u64().unwrap_or(DEFAULT_SEED);
+        let mut k = spawn_worker(&prop, Tier::Quick, seed, n, n + 1, false);
+        let so = k.child.stdout.take().unwrap();
+        let finished = BufReader::new(so).lines().map_while(Result::ok).any(|l| l.starts_with("Z "));
+        let status = k.child.wait().expect("wait");
+        return if !finished {
+            println!("reproduced: {prop} P2-signal: the worker running world {n} ended with {status}");
+            println!("VIOLATION property={prop} replay={path}");
+            1
+        } else {
+            println!("not reproduced: world {n} ran to completion");
+            0
+        };
+    }
+    let rep = run_one_quiet(&prop, Tier::Quick, n, Tape::replay(tape));
     if let Some(e) = &rep.harness_error {
         eprintln!("HARNESS ERROR: {e}");
         return 2;
@@ -625,7 +671,7 @@ pub fn run(cfg: &RunCfg) -> i32 {
             println!("minimised {class} [{shape}]: tape {} -> {} entries in {tries} replays", rep.tape.len(), t.len());
             (t, r)
         } else {
-            let r = run_one(prop, cfg.tier, rep.world, Tape::replay(rep.tape.clone()));
+            let r = run_one_quiet(prop, cfg.tier, rep.world, Tape::replay(rep.tape.clone()));
             (rep.tape.clone(), r)
         };
         let vv = srep
@@ -660,6 +706,10 @@ pub fn run(cfg: &RunCfg) -> i32 {
                 ..Default::default()
             };
             let path = write_replay(&dir, prop, seed, *n, &v, &tape, &rep, "crash-");
+            if !confirm_in_fresh_process(&path) {
+                eprintln!("HARNESS ERROR: world {n} killed its worker ({why}) but does not do so again when replayed alone");
+                return 2;
+            }
             new_violations += 1;
             println!("  {}", v.message);
             violation_lines.push(format!("VIOLATION property={prop} replay={path}"));
